@@ -5,38 +5,45 @@ From RV Require Import Factory.Model Factory.Conserve.
 Import ListNotations.
 Local Open Scope N_scope.
 
+(* a batch of new events: a return comes with its discard, and no handler completion is among them *)
 Definition closed (new : list event) : Prop :=
-  forall j, In (ERet j) new -> exists r, In (EDisc j r) new.
+  (forall j, In (ERet j) new -> exists r, In (EDisc j r) new)
+  /\ (forall i a b, ~ In (EEnd i a b) new).
+Definition ev_quiet (e : event) : bool := match e with ERet _ | EEnd _ _ _ => false | _ => true end.
 Definition ext (out out' : list event) : Prop := exists new, out' = new ++ out /\ closed new.
 
 Lemma ext_refl out : ext out out.
-Proof. exists []. split; [reflexivity|]. intros j []. Qed.
+Proof. exists []. split; [reflexivity|]. split; [intros j []|intros i a b []]. Qed.
 
 Lemma ext_trans a b c : ext a b -> ext b c -> ext a c.
 Proof.
-  intros (n1 & -> & C1) (n2 & -> & C2). exists (n2 ++ n1). split; [apply app_assoc|].
-  intros j I. apply in_app_iff in I. destruct I as [I|I].
-  - destruct (C2 j I) as (r & Ir). exists r. apply in_or_app. auto.
-  - destruct (C1 j I) as (r & Ir). exists r. apply in_or_app. auto.
+  intros (n1 & -> & C1 & E1) (n2 & -> & C2 & E2). exists (n2 ++ n1). split; [apply app_assoc|]. split.
+  - intros j I. apply in_app_iff in I. destruct I as [I|I].
+    + destruct (C2 j I) as (r & Ir). exists r. apply in_or_app. auto.
+    + destruct (C1 j I) as (r & Ir). exists r. apply in_or_app. auto.
+  - intros i x y I. apply in_app_iff in I. destruct I as [I|I]; [eapply E2|eapply E1]; eassumption.
 Qed.
 
-Lemma ext_one e out : (forall j, e <> ERet j) -> ext out (e :: out).
+Lemma ext_one e out : ev_quiet e = true -> ext out (e :: out).
 Proof.
-  intros H. exists [e]. split; [reflexivity|]. intros j [E|[]]. exfalso. eapply H. eassumption.
+  intros H. exists [e]. split; [reflexivity|]. split.
+  - intros j [E|[]]. subst e. discriminate.
+  - intros i a b [E|[]]. subst e. discriminate.
 Qed.
 
 Lemma ext_eq out out' : out' = out -> ext out out'.
 Proof. intros ->. apply ext_refl. Qed.
 
 Lemma ext_accept x out : ext out (accept_ev x out).
-Proof. unfold accept_ev. destruct (j_port x); [apply ext_one; discriminate|apply ext_refl]. Qed.
+Proof. unfold accept_ev. destruct (j_port x); [apply ext_one; reflexivity|apply ext_refl]. Qed.
 
 Lemma ext_reject_disc x r out : ext out (reject_ev x (EDisc (j_id x) r :: out)).
 Proof.
   unfold reject_ev. destruct (j_port x).
-  - exists [ERet (j_id x); EDisc (j_id x) r]. split; [reflexivity|].
-    intros j [E|[E|[]]]; [inversion E; subst; exists r; simpl; auto|discriminate].
-  - apply ext_one. discriminate.
+  - exists [ERet (j_id x); EDisc (j_id x) r]. split; [reflexivity|]. split.
+    + intros j [E|[E|[]]]; [inversion E; subst; exists r; simpl; auto|discriminate].
+    + intros i a b [E|[E|[]]]; discriminate.
+  - apply ext_one. reflexivity.
 Qed.
 
 Definition EX (w w' : world) : Prop := ext (evs w) (evs w').
@@ -52,7 +59,7 @@ Proof.
   revert out r q' out'. induction q as [|x q IH]; intros out r q' out' H; simpl in H.
   - inversion H; subst. apply ext_refl.
   - destruct (expired t x).
-    + eapply ext_trans; [|eapply IH; eassumption]. apply ext_one. discriminate.
+    + eapply ext_trans; [|eapply IH; eassumption]. apply ext_one. reflexivity.
     + inversion H; subst. apply ext_refl.
 Qed.
 
@@ -75,7 +82,7 @@ Proof.
   - inversion H; subst. apply ext_refl.
   - destruct (limit <? N.of_nat (length q)); [|inversion H; subst; apply ext_refl].
     destruct (next_non_expired t q out) as [[[d|] q1] out1] eqn:E; apply next_non_expired_ext in E.
-    + eapply ext_trans; [exact E|]. eapply ext_trans; [|eapply IH; eassumption]. apply ext_one. discriminate.
+    + eapply ext_trans; [exact E|]. eapply ext_trans; [|eapply IH; eassumption]. apply ext_one. reflexivity.
     + inversion H; subst. exact E.
 Qed.
 
@@ -120,7 +127,7 @@ Qed.
 Lemma reject_discard_EX r x w : EX w (reject x (discard r x w)).
 Proof. unfold EX, reject, discard, emit. simpl. apply ext_reject_disc. Qed.
 Lemma discard_EX r x w : EX w (discard r x w).
-Proof. unfold EX, discard, emit. simpl. apply ext_one. discriminate. Qed.
+Proof. unfold EX, discard, emit. simpl. apply ext_one. reflexivity. Qed.
 Lemma accept_EX x w : EX w (accept x w).
 Proof. unfold EX, accept. simpl. apply ext_accept. Qed.
 
@@ -157,7 +164,7 @@ Proof.
   destruct (route_message c y (Some wid) (set_fq q' w1)) as [r w2] eqn:RM.
   apply route_message_EX in RM. change (EX w1 w2) in RM.
   destruct r as [|z|z]; [exact RM| |].
-  - eapply EX_trans; [exact RM|]. unfold EX, emit. simpl. apply ext_one. discriminate.
+  - eapply EX_trans; [exact RM|]. unfold EX, emit. simpl. apply ext_one. reflexivity.
   - eapply EX_trans; [exact RM|]. eapply EX_trans; [|apply IH]. apply reject_discard_EX.
 Qed.
 
@@ -284,7 +291,7 @@ Proof.
 Qed.
 
 Lemma query_EX c k w : EX w (query c k w).
-Proof. unfold query, EX, emit. destruct (k =? 0); [|destruct (k =? 1)]; simpl; apply ext_one; discriminate. Qed.
+Proof. unfold query, EX, emit. destruct (k =? 0); [|destruct (k =? 1)]; simpl; apply ext_one; reflexivity. Qed.
 
 Lemma handle_msg_EX c m w : EX w (handle_msg c m w).
 Proof.
@@ -303,7 +310,7 @@ Qed.
 Lemma expired_events_ext t l out : ext out (expired_events t l out).
 Proof.
   revert out. induction l as [|x l IH]; intros out; simpl; [apply ext_refl|].
-  eapply ext_trans; [|apply IH]. destruct (expired t x); [apply ext_one; discriminate|apply ext_refl].
+  eapply ext_trans; [|apply IH]. destruct (expired t x); [apply ext_one; reflexivity|apply ext_refl].
 Qed.
 
 Lemma calc_tail_EX c w : EX w (calc_tail c w).
@@ -322,7 +329,7 @@ Qed.
 Lemma shutdown_events_ext l out : ext out (shutdown_events l out).
 Proof.
   unfold shutdown_events. revert out. induction l as [|x l IH]; intros out; simpl; [apply ext_refl|].
-  eapply ext_trans; [|apply IH]. apply ext_one. discriminate.
+  eapply ext_trans; [|apply IH]. apply ext_one. reflexivity.
 Qed.
 
 Lemma shutdown_worker_queues_EX w : EX w (shutdown_worker_queues w).
@@ -360,13 +367,13 @@ Qed.
 Lemma drop_jobs_ext cm l out : ext out (drop_jobs cm l out).
 Proof.
   unfold drop_jobs. revert out. induction l as [|x l IH]; intros out; simpl; [apply ext_refl|].
-  eapply ext_trans; [|apply IH]. apply ext_one. discriminate.
+  eapply ext_trans; [|apply IH]. apply ext_one. reflexivity.
 Qed.
 
 Lemma actor_exit_EX a cm w : EX w (actor_exit a cm w).
 Proof.
   unfold actor_exit, EX. destruct (lookup a (actors w)) as [x|]; [|apply ext_refl]. simpl.
-  destruct (a_run x); [eapply ext_trans; [apply drop_jobs_ext|apply ext_one; discriminate]|apply drop_jobs_ext].
+  destruct (a_run x); [eapply ext_trans; [apply drop_jobs_ext|apply ext_one; reflexivity]|apply drop_jobs_ext].
 Qed.
 
 Lemma finalize_EX w : EX w (finalize w).
@@ -378,11 +385,11 @@ Proof.
   eapply ext_trans; [|apply IH]. apply drop_jobs_ext.
 Qed.
 
-Lemma step_EX c w l : EX w (step c w l).
+Lemma step_EX c w l : (forall a, l <> LWComplete a) -> EX w (step c w l).
 Proof.
-  destruct l; simpl.
+  intros NC. destruct l; simpl.
   - unfold send_msg. destruct s; try (destruct (running_now w); exr).
-    destruct (running_now w); [exr|]. unfold EX, emit. simpl. apply ext_one. discriminate.
+    destruct (running_now w); [exr|]. unfold EX, emit. simpl. apply ext_one. reflexivity.
   - destruct (fstatus w); exr.
   - apply factory_step_EX.
   - destruct (running_now w && negb (held w)); exr.
@@ -395,11 +402,8 @@ Proof.
   - exr.
   - unfold w_start. destruct (lookup a (actors w)) as [x|]; [|exr].
     destruct (a_alive x), (a_run x), (a_stop x), (a_mb x); try exr.
-    unfold EX, emit. simpl. apply ext_one. discriminate.
-  - unfold w_complete. destruct (lookup a (actors w)) as [x|]; [|exr].
-    destruct (a_alive x), (a_run x); try exr. cbv zeta.
-    match goal with |- context [if ?b then _ else _] => destruct b end;
-      unfold EX, emit; simpl; apply ext_one; discriminate.
+    unfold EX, emit. simpl. apply ext_one. reflexivity.
+  - exfalso. eapply NC. reflexivity.
   - unfold w_die. destruct (lookup a (actors w)) as [x|]; [|exr].
     destruct (a_alive x); [apply actor_exit_EX|exr].
   - unfold w_exit. destruct (lookup a (actors w)) as [x|]; [|exr].
@@ -410,6 +414,16 @@ Proof.
   - unfold w_closed. destruct (lookup a (actors w)) as [x|]; [|exr].
     destruct (memN a (closing w) && negb (a_alive x)); exr.
   - apply finalize_EX.
+Qed.
+
+(* the one step that records a completion *)
+Lemma w_complete_evs a w :
+  evs (w_complete a w) = evs w \/ exists i x y, evs (w_complete a w) = EEnd i x y :: evs w.
+Proof.
+  unfold w_complete. destruct (lookup a (actors w)) as [x|]; [|auto].
+  destruct (a_alive x); [|auto]. destruct (a_run x) as [j|]; [|auto]. cbv zeta.
+  right. exists (j_id j), (a_wid x), a.
+  match goal with |- context [if ?b then _ else _] => destruct b end; reflexivity.
 Qed.
 
 Lemma init_evs c n d rls : evs (init c n d rls) = [].
@@ -431,9 +445,18 @@ Theorem returned_is_discarded : forall c n d rls ls j,
   exists r, In (EDisc j r) (evs (run c (init c n d rls) ls)).
 Proof.
   intros c n d rls ls.
-  assert (G : forall ls w, EX w (run c w ls)).
-  { induction ls0 as [|l ls0 IH]; intros w; simpl; [exr|].
-    eapply EX_trans; [apply step_EX|apply IH]. }
-  destruct (G ls (init c n d rls)) as (new & E & C). rewrite init_evs, app_nil_r in E.
-  intros j I. rewrite E in *. exact (C j I).
+  assert (G : forall ls w, (forall j, In (ERet j) (evs w) -> exists r, In (EDisc j r) (evs w)) ->
+                           forall j, In (ERet j) (evs (run c w ls)) -> exists r, In (EDisc j r) (evs (run c w ls))).
+  { induction ls0 as [|l ls0 IH]; intros w H; simpl; [exact H|]. apply IH.
+    assert (K : forall l0, (forall a, l0 <> LWComplete a) ->
+                forall j, In (ERet j) (evs (step c w l0)) -> exists r, In (EDisc j r) (evs (step c w l0))).
+    { intros l0 NC. destruct (step_EX c w l0 NC) as (new & E & C & _).
+      intros j I. rewrite E in *. apply in_app_iff in I. destruct I as [I|I].
+      - destruct (C j I) as (r & Ir). exists r. apply in_or_app. auto.
+      - destruct (H j I) as (r & Ir). exists r. apply in_or_app. auto. }
+    destruct l; try (apply K; intros ? E; discriminate E).
+    simpl. match goal with |- context [w_complete ?q w] => destruct (w_complete_evs q w) as [E|(i & x & y & E)] end;
+      rewrite E; [exact H|].
+    intros j [I|I]; [discriminate|]. destruct (H j I) as (r & Ir). exists r. right. exact Ir. }
+  apply G. rewrite init_evs. intros j [].
 Qed.
